@@ -2,7 +2,7 @@
    This is what the OCaml driver calls; each command evaluates model functions on a case that the
    Python harness also runs on the rebuilt implementation. *)
 From OptreeModel Require Export Wire Flatten Unflatten Spec Ops Registry Pickle Accessor.
-From OptreeModel Require Ravel Dataclass Typing Faults.
+From OptreeModel Require Ravel Dataclass Typing Faults Depth.
 
 Definition bad : sexp := SL [SI 2].   (* undecodable input: a harness error, never a verdict *)
 
@@ -282,6 +282,29 @@ Definition cmd_sort_fault (a b : Z) : sexp :=
   | Faults.SRaise e => SL [SI 1; SI 10; SI e]
   end.
 
+(* cmd 16: a list / dict mutated by user code while the recursive flatten walks it *)
+Definition dec_mut (s : sexp) : option Depth.mut :=
+  match s with
+  | SL [SI 0; _] => Some Depth.MNone
+  | SL [SI 1; _] => Some Depth.MDelFirst
+  | SL [SI 2; _] => Some Depth.MDelLast
+  | SL [SI 3; _] => Some Depth.MClear
+  | SL [SI 4; SI x] => Some (Depth.MAppend x)
+  | _ => None
+  end.
+Definition dec_zpair (s : sexp) : option (Z * Z) :=
+  match s with SL [SI k; SI v] => Some (k, v) | _ => None end.
+Definition enc_zres (r : res (list Z)) : sexp := enc_res (fun l => SL (map SI l)) r.
+Definition cmd_mut_list (script : list Depth.mut) (l : list Z) : sexp :=
+  enc_zres (Depth.flatten_list_mut true script l).
+Definition cmd_mut_dict (script : list Depth.mut) (d : list (Z * Z)) : sexp :=
+  enc_zres (Depth.flatten_dict_mut true script d).
+
+(* cmd 17: the depth the traversals reach and whether every visited custom node behaves *)
+Definition cmd_depth (c : cfg) (o : obj) : sexp :=
+  SL [enc_nat (Depth.vdepth c o); enc_bool (Depth.clean c o); enc_bool (wf_obj o);
+      enc_bool (Nat.leb (Depth.vdepth c o) (S (c_limit c)))].
+
 Definition run (s : sexp) : sexp :=
   match s with
   | SL [SI 1; c; o] =>
@@ -355,5 +378,20 @@ Definition run (s : sexp) : sexp :=
     | _, _ => bad
     end
   | SL [SI 15; SI a; SI b] => cmd_sort_fault a b
+  | SL [SI 16; SI 0; SL script; SL data] =>
+    match omapM dec_mut script, omapM dec_Z data with
+    | Some sc, Some l => cmd_mut_list sc l
+    | _, _ => bad
+    end
+  | SL [SI 16; SI 1; SL script; SL data] =>
+    match omapM dec_mut script, omapM dec_zpair data with
+    | Some sc, Some d => cmd_mut_dict sc d
+    | _, _ => bad
+    end
+  | SL [SI 17; c; o] =>
+    match dec_cfg c, dec_obj o with
+    | Some c', Some o' => cmd_depth c' o'
+    | _, _ => bad
+    end
   | _ => bad
   end.
